@@ -117,6 +117,7 @@ def execute(module, kind, inp, limit):
 # ------------------------------------------------------------------------------------------- fold audit
 class Audit:
     sink = None  # list while a pass is running
+    merges = None  # list while a pass is running: float constants replaced by constants with other bits
     errors = []  # exceptions of the hook itself (crash the shard later: never swallowed, never blamed on the pass)
     installed = False
 
@@ -225,6 +226,21 @@ def install_audit():
 
     replace.__wrapped__ = orig
     PatternRewriter.replace = replace
+
+    from xdsl.ir import SSAValue
+    orig_rauw = SSAValue.replace_all_uses_with
+
+    def replace_all_uses_with(self, value):
+        if Audit.merges is not None and value is not self:
+            try:
+                ev = _merge_event(self, value)
+                if ev:
+                    Audit.merges.append(ev)
+            except Exception:  # noqa: BLE001 - re-raised by the harness after the pass
+                Audit.errors.append(traceback.format_exc())
+        return orig_rauw(self, value)
+
+    SSAValue.replace_all_uses_with = replace_all_uses_with
     Audit.installed = True
 
 
@@ -254,6 +270,29 @@ def classify_fold(pass_name, rec):
 def _fbits(attr):
     v = attr.value.data
     return struct.pack("<d", v).hex(), math.isnan(v), v
+
+
+def _float_const(v):
+    owner = getattr(v, "owner", None)
+    if getattr(owner, "name", None) != "arith.constant":
+        return None
+    a = owner.properties.get("value")
+    if type(a).__name__ != "FloatAttr":
+        return None
+    return _fbits(a)
+
+
+def _merge_event(old, new):
+    """a float constant all of whose uses are redirected to a float constant with different bits"""
+    a, b = _float_const(old), _float_const(new)
+    if a is None or b is None or a[0] == b[0] or old.first_use is None:
+        return None
+    ts = _tstr(old.type)
+    if a[1] and b[1]:
+        return ("nan-payload", ts, a[0], b[0])
+    if a[2] == 0.0 and b[2] == 0.0:
+        return ("pos-neg-zero", ts, a[0], b[0])
+    return ("other", ts, a[0], b[0])
 
 
 def track_float_constants(module):
@@ -481,6 +520,7 @@ def run_case(cx: Ctx, text, kind, argtypes, inputs, passes, tag=""):
             raise RuntimeError("clone of the source program differs from it\n" + text)
         tracked = track_float_constants(m2)
         Audit.sink = []
+        Audit.merges = []
         journal(f"pass={pn}\n{text}")
         exc = None
         try:
@@ -488,6 +528,7 @@ def run_case(cx: Ctx, text, kind, argtypes, inputs, passes, tag=""):
         except Exception as e:  # noqa: BLE001 - MemoryError / RecursionError are Exceptions as well
             exc = e
         audit, Audit.sink = Audit.sink, None
+        hook_merges, Audit.merges = Audit.merges, None
         if Audit.errors:
             raise RuntimeError("fold-audit hook failed:\n" + Audit.errors[0])
         cx.count(f"folds_audited:{pn}", len(audit))
@@ -535,7 +576,7 @@ def run_case(cx: Ctx, text, kind, argtypes, inputs, passes, tag=""):
         triggered = canon1 != canon0
         if triggered:
             cx.count(f"pass_changed_program:{pn}")
-        merges = merged_constants(tracked)
+        merges = sorted(set(merged_constants(tracked)) | set(hook_merges))
         merge_keys = []
         for ev in merges:
             cx.count(f"float_constant_merge:{pn}:{ev[0]}")
@@ -611,7 +652,10 @@ def _verify_class(module):
 
 # ------------------------------------------------------------------------------------------- plan / work / finish
 def plan(tier, seed):
-    shards, per = (32, 48) if tier == "quick" else (64, 1500)
+    import os
+    shards, per = (16, 96) if tier == "quick" else (64, 1000)  # worker start-up (imports) costs ~4 CPU-s
+    # self-tests only (mutant runs in a scratch worktree): XV_C14_SCALE=0.5 halves the workload of every shard
+    per = max(1, int(per * float(os.environ.get("XV_C14_SCALE", "1"))))
     return [{"kind": "gen", "seed": seed * 100003 + i, "n": per} for i in range(shards)]
 
 
@@ -670,10 +714,10 @@ def on_lost(info):
              "witness": {"pass": pn, "program": text[:6000]}}]
 
 
-MIN_CHANGED = {"quick": {"canonicalize": 600, "constant-fold-interp": 400, "cse": 500, "test-constant-folding": 40,
+MIN_CHANGED = {"quick": {"canonicalize": 600, "constant-fold-interp": 400, "cse": 500, "test-constant-folding": 80,
                          "test-specialised-constant-folding": 25},
-               "thorough": {"canonicalize": 20000, "constant-fold-interp": 12000, "cse": 15000,
-                            "test-constant-folding": 1200, "test-specialised-constant-folding": 700}}
+               "thorough": {"canonicalize": 20000, "constant-fold-interp": 15000, "cse": 18000,
+                            "test-constant-folding": 3000, "test-specialised-constant-folding": 900}}
 
 
 def finish(agg, tier):
@@ -696,7 +740,7 @@ def finish(agg, tier):
         if nt < need:
             inc.append(f"{pn}: only {nt} programs were changed by the pass and compared (< {need}); trigger rate "
                        f"{rates[pn]['trigger_rate']}")
-    if c.get("folds_compared:canonicalize", 0) < (300 if tier == "quick" else 10000):
+    if c.get("folds_compared:canonicalize", 0) < (800 if tier == "quick" else 30000):
         inc.append("fold audit saw too few canonicalize folds")
     runs = c.get("source_runs", 0)
     excl = sum(v for k, v in c.items() if k.startswith("source_excluded_"))
